@@ -15,7 +15,7 @@
 //! encoding continues.
 
 use crate::zoo;
-use constriction::backends::{Cursor, ReadWords, WriteWords};
+use constriction::backends::{Cursor, ReadWords, Reverse, WriteWords};
 use constriction::stream::chain::ChainCoder;
 use constriction::stream::queue::RangeEncoder;
 use constriction::stream::stack::AnsCoder;
@@ -213,7 +213,10 @@ macro_rules! c09_cfg {
                 3 => {
                     ctx.label("coder:ans_bounded_cursor");
                     let cap = src.below_usize(8);
-                    let mut c = AnsCoder::<$W, $S, _>::from_compressed(Cursor::new_at_write_beginning(vec![0 as $W; cap])).map_err(|_| vengine::Fail::new("harness/cursor", "empty cursor rejected"))?;
+                    let fwd = AnsCoder::<$W, $S, _>::from_compressed(Cursor::new_at_write_beginning(vec![0 as $W; cap])).map_err(|_| vengine::Fail::new("harness/cursor", "empty cursor rejected"))?;
+                    macro_rules! bounded_history {
+                        ($c:expr, $copy:expr) => {{
+                            let mut c = $c;
                     let mut stack: Vec<(usize, i64)> = Vec::new();
                     let mut failures = 0;
                     for &(mi, s, bad) in &hist {
@@ -228,7 +231,7 @@ macro_rules! c09_cfg {
                                 failures += 1;
                                 ctx.label("backend_write_failed");
                                 // everything encoded before still decodes (on a copy) ...
-                                let mut copy = AnsCoder::<$W, $S, _>::from_raw_parts(c.bulk().cloned(), c.state());
+                                let mut copy = $copy(&c);
                                 for &(mj, t) in stack.iter().rev() {
                                     let d = copy.decode_symbol(&models[mj]).unwrap_infallible();
                                     vcheck!(d == t, "C09/failed_write_corrupted_coder", "after a failed write to a full sink, decoded {} instead of {}", d, t);
@@ -248,6 +251,15 @@ macro_rules! c09_cfg {
                     }
                     if failures > 0 {
                         ctx.nontrivial();
+                    }
+                                        }};
+                    }
+                    if hist.len() % 2 == 0 {
+                        bounded_history!(fwd, |c: &AnsCoder<$W, $S, Cursor<$W, Vec<$W>>>| AnsCoder::<$W, $S, _>::from_raw_parts(c.bulk().cloned(), c.state()))
+                    } else {
+                        // the same capacity as a reversed cursor (writes run towards index 0)
+                        ctx.label("coder:ans_bounded_reversed_cursor");
+                        bounded_history!(fwd.into_reversed(), |c: &AnsCoder<$W, $S, Reverse<Cursor<$W, Vec<$W>>>>| AnsCoder::<$W, $S, _>::from_raw_parts(Reverse(c.bulk().0.cloned()), c.state()))
                     }
                 }
                 _ => {
